@@ -5,7 +5,7 @@ CloseGuard (R3), clearing resets stored data (R4), releases go through the ownin
 """
 from rulekit import Facts, where, proj_names
 from rulekit.sym import PathEval, show
-from rulekit.query import option_test, field_users, guards_of, ordering_of, ORD_RANK, const_int, recv_fields, peel_bool
+from rulekit.query import closure_arg, option_test, field_users, guards_of, ordering_of, ORD_RANK, const_int, recv_fields, peel_bool
 
 S = "tracing_subscriber::registry::sharded::"
 REG = S + "Registry"
@@ -55,6 +55,8 @@ def run(ck):
             C09.wrapper_rules(ck, F, rids={"R0": "C05.R7", "R1": "C05.R7", "R2": "C05.R7", "R3": "C05.R7"}, traits=["tracing_core::collect::Collect"],
                               only={"new_span", "clone_span", "try_close", "drop_span", "enter", "exit"})
             C09.dispatch_forwarding(ck, F, rid="C05.R7", only={"new_span", "clone_span", "try_close", "drop_span", "enter", "exit"})
+            # ... and a reference released through the deprecated drop_span is still a release: on a Layered stack it closes
+            C09.layered_drop_span(ck, F, rid="C05.R7")
             # a layer behind reload::Subscriber gets its on_close (and everything else) only if the wrapper waits for its lock
             from rules import C12
             C12.r3(ck, F, rid="C05.R8")
@@ -120,6 +122,26 @@ def r1(ck, F):
         if not ck.anchor("C05.R1", "Registry::" + fn, b):
             continue
         acts = [bb for bb, t in b.calls() if act_pred(t)]
+        if fn == "exit":
+            # the release is the try_close: written in the method (on a Dispatch cloned out of get_default) or in the closure
+            # handed to get_default
+            direct = [bb for bb, t in b.calls() if t["callee"].get("method") == "try_close"]
+            inside = []
+            for bb, t in b.calls():
+                if t["callee"].get("path") == "tracing_core::dispatch::get_default" and len(t["argv"]) >= 1:
+                    cd = closure_arg(b, t["argv"][0])
+                    cb = F.body(cd) if cd else None
+                    if cb is not None and any(tt["callee"].get("method") == "try_close" for _, tt in cb.calls()):
+                        inside.append(bb)
+            acts = direct + inside
+            k2 = "exit: the entered reference is released outside get_default's closure"
+            if inside:
+                ck.bad("C05.R1", k2, where(b.raw["sp"]), "try_close runs inside the closure given to dispatch::get_default: when it releases the span's last reference "
+                       "(the handle was dropped while the span was entered) the span closes there, and DataInner::clear's own get_default -- nested, the thread's "
+                       "default being borrowed -- yields Dispatch::none(): the parent's reference is released on the no-op collector and a parent whose handle "
+                       "is already gone never closes", fn=b.path)
+            elif direct:
+                ck.ok("C05.R1", k2, fn=b.path)
         tests = [bb for x in [b] + F.closures_of(b) for bb, t in x.calls() if t["callee"].get("method") == test and "SpanStack" in t["callee"]["path"]]
         key = "%s: %s iff SpanStack::%s returned true" % (fn, what, test)
         ok = len(acts) == 1 and len(tests) == 1
